@@ -190,6 +190,44 @@ theorem wildcard_text_cache_history_dependent :
    2, (Version.mk' 0 [1, 0, 0] none (some ⟨.post, 1⟩) none none, Version.mk' 0 [1, 0] none (some ⟨.post, 2⟩) none none),
    "1.0.post1.*", List.mem_cons_self, by rfl, rfl⟩
 
+/-! ### the SPDX licence table -/
+
+/-- the cache the code has — `lru_cache` on the argument-less `_load_licenses()` — is transparent in every
+interleaving (one key; several threads may all load the table), and `license_by_id` only READS it (`dict.get`). -/
+theorem memo_transparent_load_licenses (load : PyM LicTable)
+    (sched : List (Tid × MAct Unit)) (t : Tid) (r : PyM LicTable)
+    (h : (t, (), r) ∈ (MState.run (loadLicensesSpec load) MState.init sched).log) : r = load :=
+  memo_transparent _ (loadLicensesSpec_congr load) sched t () r h
+
+/-- **The seeded class "register custom licences under the lower-cased key"** (`licenses.setdefault(identifier.lower(),
+License(identifier, …))`) turns the table into a memo cache of `license_by_id` whose key match (equal lower-cased
+text) is NOT a congruence: a custom licence keeps the spelling of the identifier it was built from. -/
+theorem license_setdefault_not_congruent (hashOf : List Char → Nat) :
+    ¬ (licenseSetdefaultSpec [("mit".toList, ("MIT", "MIT License", true, false))] hashOf).Congr := by
+  intro h
+  have h1 := h "Acme Licence" "ACME LICENCE" (by
+    have : lowerStr "Acme Licence" = lowerStr "ACME LICENCE" := by decide
+    simp [MemoSpec.hit, licenseSetdefaultSpec, this])
+  have h2 : licenseById [("mit".toList, ("MIT", "MIT License", true, false))] "Acme Licence" =
+      .ok ("Acme Licence", "Acme Licence", false, false) := by rfl
+  have h3 : licenseById [("mit".toList, ("MIT", "MIT License", true, false))] "ACME LICENCE" =
+      .ok ("ACME LICENCE", "ACME LICENCE", false, false) := by rfl
+  simp only [licenseSetdefaultSpec, h2, h3] at h1
+  simp at h1
+
+/-- … and the call history that shows it: after a project with licence text `Acme Licence` was handled, the
+lookup for `ACME LICENCE` returns the first project's licence object; a known SPDX id is unaffected. -/
+theorem license_setdefault_history_dependent :
+    let spec := licenseSetdefaultSpec [("mit".toList, ("MIT", "MIT License", true, false))] (fun _ => 0)
+    let st := MState.run spec MState.init
+      [(1, .call "Acme Licence"), (1, .compute), (1, .store), (1, .call "ACME LICENCE"),
+       (1, .call "mit"), (1, .compute), (1, .store)]
+    st.log = [(1, "mit", .ok ("MIT", "MIT License", true, false)),
+              (1, "ACME LICENCE", .ok ("Acme Licence", "Acme Licence", false, false)),
+              (1, "Acme Licence", .ok ("Acme Licence", "Acme Licence", false, false))] ∧
+    spec.f "ACME LICENCE" = .ok ("ACME LICENCE", "ACME LICENCE", false, false) := by
+  exact ⟨by rfl, by rfl⟩
+
 /-! ### (H1) characterised for the concrete simplifier -/
 
 /-- **Stack irrelevance.**  Run `cnf` with the frames the calling thread already has (`frn`) kept apart from the frames
